@@ -256,7 +256,9 @@ def coll_cases(draw, tier):
     g = draw(st.sampled_from([x for x in grids if x[0] * x[1] >= 2] or grids))
     saveStep = draw(st.integers(1, 5))
     k0 = draw(st.integers(0, 12))
-    nsteps = draw(st.integers(1, saveStep))
+    # one to three collect/reduce cycles on the SAME collector (the driver reduces once per saveStep steps for the whole run)
+    ncyc = draw(st.sampled_from([1, 2, 2, 3]))
+    nsteps = [draw(st.integers(1, saveStep)) for _ in range(ncyc)]
     return {"cfg": cfg, "nprocs": g, "seed": draw(st.integers(0, 2 ** 16)), "saveStep": saveStep, "k0": k0,
             "nsteps": nsteps, "schedule": draw(gen.schedules(10)), "reduce_seed": draw(st.integers(0, 1000))}
 
@@ -275,19 +277,24 @@ def _coll_rank(ctx, c):
     dg = rs.diagnostics
     rs.f.setLayout('v_parallel')
     rs.phi.setLayout('v_parallel_2d')
-    for s in range(c["nsteps"]):
-        k = c["k0"] + s
-        F, Phi = coll_fields(c, eta, k)
-        sim.fill(rs.f, F)
-        sim.fill(rs.phi, Phi.astype(complex))
-        dg.collect(rs.f, rs.phi, k * dt)
-    dg.reduce()
-    if ctx.rank == 0:
-        return {"t": dg.diagnostics[0].copy(), "l2phi": np.array(dg.l2PhiResult), "l2f": np.array(dg.l2GridResult),
-                "l1": np.array(dg.l1Result), "n": np.array(dg.nPartResult), "min": np.array(dg.min_val),
-                "max": np.array(dg.max_val), "ke": np.array(dg.KE_val),
-                "lines": [dg.getLine((c["k0"] + s) % c["saveStep"]) for s in range(c["nsteps"])]}
-    return None
+    out = []
+    k = c["k0"]
+    for ns in c["nsteps"]:
+        ks = []
+        for _ in range(ns):
+            F, Phi = coll_fields(c, eta, k)
+            sim.fill(rs.f, F)
+            sim.fill(rs.phi, Phi.astype(complex))
+            dg.collect(rs.f, rs.phi, k * dt)
+            ks.append(k)
+            k += 1
+        dg.reduce()
+        if ctx.rank == 0:
+            out.append({"ks": ks, "t": dg.diagnostics[0].copy(), "l2phi": np.array(dg.l2PhiResult), "l2f": np.array(dg.l2GridResult),
+                        "l1": np.array(dg.l1Result), "n": np.array(dg.nPartResult), "min": np.array(dg.min_val),
+                        "max": np.array(dg.max_val), "ke": np.array(dg.KE_val),
+                        "lines": {kk: dg.getLine(kk % c["saveStep"]) for kk in ks}})
+    return out if ctx.rank == 0 else None
 
 
 def coll_pred(c):
@@ -300,21 +307,38 @@ def coll_pred(c):
     g, consts = sim.setup_distrib(core.COMM_WORLD, c["cfg"], "v_parallel", [1, 1], save=False)
     eta = [np.asarray(e) for e in g.eta_grid]
     dt = c["cfg"]["dt"]
-    for s in range(c["nsteps"]):
-        k = c["k0"] + s
-        slot = k % c["saveStep"]
-        F, Phi = coll_fields(c, eta, k)
-        w4 = serial_values(F, eta)
-        w3 = serial_values(Phi, eta)
-        want = {"t": k * dt, "l2phi": np.sqrt(w3["l2"]), "l2f": np.sqrt(w4["l2"]), "l1": w4["l1"], "n": w4["n"],
-                "min": F.min(), "max": F.max(), "ke": w4["ke"]}
-        for key, wv in want.items():
-            gv = got[key][slot]
-            exact = key in ("t", "min", "max")
-            if (gv != wv) if exact else (abs(gv - wv) > 1e-12 * (abs(wv) + 1e-300) * 4):
-                raise Violation("C17:collector:" + key, "step k=%d (t=%d) saveStep=%d: slot %d holds %s=%r, serial value %r"
-                                % (k, k * dt, c["saveStep"], slot, key, gv, wv))
-    return {"nontrivial": P >= 2, "labels": ["P=%d" % P, "saveStep=%d" % c["saveStep"]], "evals": c["nsteps"]}
+    LINE = ("t", "l2phi", "l2f", "l1", "n", "min", "max", "ke")
+    if len(got) != len(c["nsteps"]):
+        raise RuntimeError("harness: unexpected number of collector cycles")
+    for cyc, rec in enumerate(got):
+        for k in rec["ks"]:
+            slot = k % c["saveStep"]
+            F, Phi = coll_fields(c, eta, k)
+            w4 = serial_values(F, eta)
+            w3 = serial_values(Phi, eta)
+            want = {"t": k * dt, "l2phi": np.sqrt(w3["l2"]), "l2f": np.sqrt(w4["l2"]), "l1": w4["l1"], "n": w4["n"],
+                    "min": F.min(), "max": F.max(), "ke": w4["ke"]}
+            for key, wv in want.items():
+                gv = rec[key][slot]
+                exact = key in ("t", "min", "max")
+                if (gv != wv) if exact else not (abs(gv - wv) <= 1e-12 * (abs(wv) + 1e-300) * 4):
+                    raise Violation("C17:collector:" + key, "reduce() number %d on one collector, step k=%d (t=%d) saveStep=%d: slot %d "
+                                    "holds %s=%r, serial value %r" % (cyc + 1, k, k * dt, c["saveStep"], slot, key, gv, wv))
+            # the printed line of that slot carries the same numbers (10 decimals; the time with 6 significant digits)
+            try:
+                vals = [float(x) for x in rec["lines"][k].split()]
+            except ValueError:
+                vals = []
+            if len(vals) != 8:
+                raise Violation("C17:collector:line", "getLine(%d) is not eight numbers: %r" % (slot, rec["lines"][k]))
+            for key, lv in zip(LINE, vals):
+                wv = float(want[key])
+                rel = 1e-5 if key == "t" else 1e-9
+                if not abs(lv - wv) <= rel * abs(wv) + 1e-300:
+                    raise Violation("C17:collector:line", "reduce() number %d, step k=%d: printed %s=%r, serial value %r"
+                                    % (cyc + 1, k, key, lv, wv))
+    return {"nontrivial": P >= 2, "labels": ["P=%d" % P, "saveStep=%d" % c["saveStep"], "reduces=%d" % len(c["nsteps"])],
+            "evals": sum(c["nsteps"])}
 
 
 SUBS = {"norms": Sub(norm_pred, strategy=norm_cases), "minmax": Sub(minmax_pred, strategy=minmax_cases),
